@@ -1,4 +1,5 @@
 import JT.Proof.GoModel
+import JT.Proof.GoModelRT
 /-!
 # C07 — encoders as they stand in the source
 
@@ -36,5 +37,26 @@ theorem source_body_encoders_total (fuel : Nat) :
   · exact (Go.X.isOk_iff _).mp (Gen.GoModel.T0x0800_Encode_total fuel t)
   · exact (Go.X.isOk_iff _).mp (Gen.GoModel.T0x1003_Encode_total fuel t)
   · exact (Go.X.isOk_iff _).mp (Gen.GoModel.T0x1206_Encode_total fuel t)
+
+/-- **`Parse(Encode(v)) = v` on the translated source** for the fixed-layout bodies whose `Encode` and `Parse` are both
+inside the translated fragment: every field value survives, whatever the receiver held before, and nothing panics. -/
+theorem source_fixed_layout_roundtrips (fuel : Nat) (j : Gen.GoFrame.jt808_JTMessage) :
+    (∀ t q : Gen.GoModel.model_P0x8001, ∃ body, Gen.GoModel.model_P0x8001_Encode fuel t = .ok body ∧
+      ∃ r, Gen.GoModel.model_P0x8001_Parse fuel q { j with Body := body } = .ok (r, none) ∧ r.RespondSerialNumber = t.RespondSerialNumber ∧ r.RespondID = t.RespondID ∧ r.Result = t.Result) ∧
+    (∀ t q : Gen.GoModel.model_P0x8801, ∃ body, Gen.GoModel.model_P0x8801_Encode fuel t = .ok body ∧
+      ∃ r, Gen.GoModel.model_P0x8801_Parse fuel q { j with Body := body } = .ok (r, none) ∧ r.ChannelID = t.ChannelID ∧ r.ShootCommand = t.ShootCommand ∧ r.PhotoIntervalOrVideoTime = t.PhotoIntervalOrVideoTime ∧ r.SaveFlag = t.SaveFlag ∧ r.Resolution = t.Resolution ∧ r.VideoQuality = t.VideoQuality ∧ r.Intensity = t.Intensity ∧ r.Contrast = t.Contrast ∧ r.Saturation = t.Saturation ∧ r.Chroma = t.Chroma) ∧
+    (∀ t q : Gen.GoModel.model_P0x9102, ∃ body, Gen.GoModel.model_P0x9102_Encode fuel t = .ok body ∧
+      ∃ r, Gen.GoModel.model_P0x9102_Parse fuel q { j with Body := body } = .ok (r, none) ∧ r.ChannelNo = t.ChannelNo ∧ r.ControlCmd = t.ControlCmd ∧ r.CloseAudioVideoData = t.CloseAudioVideoData ∧ r.StreamType = t.StreamType) ∧
+    (∀ t q : Gen.GoModel.model_P0x9105, ∃ body, Gen.GoModel.model_P0x9105_Encode fuel t = .ok body ∧
+      ∃ r, Gen.GoModel.model_P0x9105_Parse fuel q { j with Body := body } = .ok (r, none) ∧ r.ChannelNo = t.ChannelNo ∧ r.PackageLossRate = t.PackageLossRate) ∧
+    (∀ t q : Gen.GoModel.model_P0x9207, ∃ body, Gen.GoModel.model_P0x9207_Encode fuel t = .ok body ∧
+      ∃ r, Gen.GoModel.model_P0x9207_Parse fuel q { j with Body := body } = .ok (r, none) ∧ r.RespondSerialNumber = t.RespondSerialNumber ∧ r.UploadControl = t.UploadControl) ∧
+    (∀ t q : Gen.GoModel.model_T0x0001, ∃ body, Gen.GoModel.model_T0x0001_Encode fuel t = .ok body ∧
+      ∃ r, Gen.GoModel.model_T0x0001_Parse fuel q { j with Body := body } = .ok (r, none) ∧ r.SerialNumber = t.SerialNumber ∧ r.ID = t.ID ∧ r.Result = t.Result) ∧
+    (∀ t q : Gen.GoModel.model_T0x1003, ∃ body, Gen.GoModel.model_T0x1003_Encode fuel t = .ok body ∧
+      ∃ r, Gen.GoModel.model_T0x1003_Parse fuel q { j with Body := body } = .ok (r, none) ∧ r.EnterAudioEncoding = t.EnterAudioEncoding ∧ r.EnterAudioChannelsNumber = t.EnterAudioChannelsNumber ∧ r.EnterAudioSampleRate = t.EnterAudioSampleRate ∧ r.EnterAudioSampleDigits = t.EnterAudioSampleDigits ∧ r.AudioFrameLength = t.AudioFrameLength ∧ r.HasSupportedAudioOutput = t.HasSupportedAudioOutput ∧ r.VideoEncoding = t.VideoEncoding ∧ r.TerminalSupportedMaxNumberOfAudioPhysicalChannels = t.TerminalSupportedMaxNumberOfAudioPhysicalChannels ∧ r.TerminalSupportedMaxNumberOfVideoPhysicalChannels = t.TerminalSupportedMaxNumberOfVideoPhysicalChannels) ∧
+    (∀ t q : Gen.GoModel.model_T0x1206, ∃ body, Gen.GoModel.model_T0x1206_Encode fuel t = .ok body ∧
+      ∃ r, Gen.GoModel.model_T0x1206_Parse fuel q { j with Body := body } = .ok (r, none) ∧ r.RespondSerialNumber = t.RespondSerialNumber ∧ r.Result = t.Result) :=
+  ⟨fun t q => Gen.GoModel.P0x8001_roundtrip fuel t q j, fun t q => Gen.GoModel.P0x8801_roundtrip fuel t q j, fun t q => Gen.GoModel.P0x9102_roundtrip fuel t q j, fun t q => Gen.GoModel.P0x9105_roundtrip fuel t q j, fun t q => Gen.GoModel.P0x9207_roundtrip fuel t q j, fun t q => Gen.GoModel.T0x0001_roundtrip fuel t q j, fun t q => Gen.GoModel.T0x1003_roundtrip fuel t q j, fun t q => Gen.GoModel.T0x1206_roundtrip fuel t q j⟩
 
 end JT.C07
